@@ -1100,13 +1100,15 @@ def _median_groupby_aggregate(
     dropna=None,
     observed=None,
     numeric_only=False,
+    sort=None,
     args=None,
     **kwargs,
 ):
     dropna = {"dropna": dropna} if dropna is not None else {}
     observed = {"observed": observed} if observed is not None else {}
+    sort = {"sort": sort} if sort is not None else {}
 
-    g = df.groupby(by=by, **observed, **dropna)
+    g = df.groupby(by=by, **observed, **dropna, **sort)
     if key is not None:
         g = g[key]
     return g.median(numeric_only=numeric_only)
@@ -2112,7 +2114,7 @@ class GroupBy:
                 None,
                 no_default,
                 (),
-                {"numeric_only": numeric_only},
+                {"numeric_only": numeric_only, **_as_dict("sort", self.sort)},
                 get_specified_shuffle(shuffle_method),
                 split_every,
                 *self.by,
